@@ -1054,6 +1054,17 @@ def m_formatter_pad(ex, n, a, f):
     return Adt(ret_ty(f), ex.p.variant_index(ret_ty(f), 'Ok'), [UNIT])
 
 
+@model(r'^std::fmt::Formatter::<\'_>::new$', r'^core::fmt::Formatter::<\'_>::new$')
+def m_formatter_new(ex, n, a, f):
+    """Formatter over a String buffer (ToString::to_string): output goes straight into the String's characters"""
+    buf = ex.deref(a[0])
+    if not isinstance(buf, StringV):
+        raise Unsupported(f"Formatter::new over {buf!r}"[:100])
+    fm = FormatterV()
+    fm.out = buf.chars
+    return fm
+
+
 @model(r'^std::fmt::Formatter::<\'_>::alternate$')
 def m_formatter_alternate(ex, n, a, f):
     return False
@@ -1148,6 +1159,28 @@ def m_str_eq(ex, n, a, f):
     return bool_not(r) if n.endswith('::ne') else r
 
 
+def _cow_chars(ex, v):
+    v = ex.deref(v) if isinstance(v, Ref) else v
+    while isinstance(v, Ref):
+        v = ex.deref(v)
+    if isinstance(v, Adt):          # Cow::Borrowed(&str) | Cow::Owned(String)
+        v = ex.force(v.fields[0])
+        while isinstance(v, Ref):
+            v = ex.deref(v)
+    if isinstance(v, (StrRef, StringV)):
+        return v.chars
+    raise Unsupported(f"Cow<str> comparison on {v!r}"[:120])
+
+
+@model(r"^(std|alloc)::string::<impl std::cmp::PartialEq<(&(\'\w+ )?str|str|std::string::String)> for std::borrow::Cow<'_, str>>::(eq|ne)$",
+       r"^(std|alloc)::string::<impl std::cmp::PartialEq<std::borrow::Cow<'_, str>> for (&(\'\w+ )?str|str|std::string::String)>::(eq|ne)$",
+       r"^<std::borrow::Cow<'_, str> as std::cmp::PartialEq<(&str|str|std::string::String)>>::(eq|ne)$",
+       r"^<(&str|str|std::string::String) as std::cmp::PartialEq<std::borrow::Cow<'_, str>>>::(eq|ne)$")
+def m_cow_str_eq(ex, n, a, f):
+    r = str_eq(ex, _cow_chars(ex, a[0]), _cow_chars(ex, a[1]))
+    return bool_not(r) if n.endswith('::ne') else r
+
+
 def opaque_str_eq(ex, x, y):
     """equality of opaque symbolic strings: an uninterpreted-sort comparison"""
     tx = opaque_str_term(ex, x)
@@ -1204,6 +1237,17 @@ def m_scalar_to_string(ex, n, a, f):
     out = []
     render_arg(ex, FmtArg('display', a[0], tid, None), out)
     return StringV(out)
+
+
+@model(r'^<.* as (alloc|std)::string::SpecToString>::spec_to_string$')
+def m_generic_to_string(ex, n, a, f):
+    """ToString through the type's real Display impl (the body builds a Formatter over a String by raw aggregates)"""
+    for c in f.get('callees', {}).values():
+        if c['name'].endswith('std::fmt::Display>::fmt'):
+            fm = FormatterV()
+            ex.call(c['inst'], [a[0], Ref(Cell(fm))])
+            return StringV(list(fm.out))
+    raise Unsupported('spec_to_string without Display callee: ' + n[:80])
 
 
 # --------------------------------------------------------------------------- Rc / RefCell
@@ -1465,6 +1509,23 @@ def m_bts_insert(ex, n, a, f):
     return True
 
 
+# HashSet: membership / insertion only (iteration order is randomised in the real type and refused here)
+@model(r'^std::collections::HashSet::<.*>::new$', r'^<std::collections::HashSet<.*> as std::default::Default>::default$')
+def m_hs_new(ex, n, a, f):
+    return BTreeMapV()
+
+
+@model(r'^std::collections::HashSet::<.*>::insert$')
+def m_hs_insert(ex, n, a, f):
+    return m_bts_insert(ex, n, a, f)
+
+
+@model(r'^std::collections::HashSet::<.*>::contains::<')
+def m_hs_contains(ex, n, a, f):
+    m = ex.deref(a[0])
+    return bt_find(m, sort_key(ex, a[1]))[1]
+
+
 @model(r'^std::collections::BTreeMap::<.*>::(get|get_mut)::<', r'^std::collections::BTreeMap::<.*>::get_key_value::<')
 def m_bt_get(ex, n, a, f):
     m = ex.deref(a[0])
@@ -1491,6 +1552,22 @@ def m_bt_remove(ex, n, a, f):
     if not found:
         return none(ex, rt)
     return some(ex, rt, m.entries.pop(i)[2].v)
+
+
+@model(r'^std::collections::BTreeMap::<.*>::remove_entry::<')
+def m_bt_remove_entry(ex, n, a, f):
+    m = ex.deref(a[0])
+    i, found = bt_find(m, sort_key(ex, a[1]))
+    rt = ret_ty(f)
+    if not found:
+        return none(ex, rt)
+    e = m.entries.pop(i)
+    return some(ex, rt, Tup([e[1], e[2].v]))
+
+
+@model(r'^std::collections::BTree(Map|Set)::<.*>::contains(_key)?::<')
+def m_bt_contains(ex, n, a, f):
+    return bt_find(ex.deref(a[0]), sort_key(ex, a[1]))[1]
 
 
 @model(r'^std::collections::BTree(Map|Set)::<.*>::len$')
@@ -1626,21 +1703,61 @@ class EntryV:
 
 @model(r'^std::collections::BTreeMap::<.*>::entry$')
 def m_bt_entry(ex, n, a, f):
-    return EntryV(ex.deref(a[0]), a[1])
+    m = ex.deref(a[0])
+    rt = ret_ty(f)
+    found = bt_find(m, sort_key(ex, a[1]))[1]
+    return Adt(rt, ex.p.variant_index(rt, 'Occupied' if found else 'Vacant'), [EntryV(m, a[1])])
+
+
+def _entry(ex, v):
+    e = ex.force(v)
+    while isinstance(e, Ref):
+        e = ex.deref(e)
+    return e.fields[0] if isinstance(e, Adt) else e
+
+
+@model(r'^std::collections::btree_map::VacantEntry::<.*>::insert(_entry)?$')
+def m_bt_vacant_insert(ex, n, a, f):
+    e = _entry(ex, a[0])
+    sk = sort_key(ex, e.key)
+    i, found = bt_find(e.map, sk)
+    e.map.entries.insert(i, [sk, e.key, Cell(a[1])])
+    return Ref(e.map.entries[i][2])
+
+
+@model(r'^std::collections::btree_map::OccupiedEntry::<.*>::(get|get_mut|into_mut)$')
+def m_bt_occupied_get(ex, n, a, f):
+    e = _entry(ex, a[0])
+    i, found = bt_find(e.map, sort_key(ex, e.key))
+    return Ref(e.map.entries[i][2])
+
+
+@model(r'^std::collections::btree_map::OccupiedEntry::<.*>::insert$')
+def m_bt_occupied_insert(ex, n, a, f):
+    e = _entry(ex, a[0])
+    i, found = bt_find(e.map, sort_key(ex, e.key))
+    old = e.map.entries[i][2].v
+    e.map.entries[i][2].v = a[1]
+    return old
+
+
+@model(r'^std::collections::btree_map::(Occupied|Vacant)Entry::<.*>::key$')
+def m_bt_entry_key(ex, n, a, f):
+    return Ref(Cell(_entry(ex, a[0]).key))
 
 
 @model(r'^std::collections::btree_map::Entry::<.*>::and_modify::<')
 def m_bt_entry_and_modify(ex, n, a, f):
-    e = ex.force(a[0])
+    e = _entry(ex, a[0])
     i, found = bt_find(e.map, sort_key(ex, e.key))
     if found:
         ex.call_value(a[1], [Ref(e.map.entries[i][2])])
-    return e
+    return a[0]
 
 
 @model(r'^std::collections::btree_map::Entry::<.*>::(or_insert|or_insert_with|or_default)(::<.*)?$')
 def m_bt_entry_or_insert(ex, n, a, f):
-    e = ex.force(a[0])
+    e = _entry(ex, a[0])
     i, found = bt_find(e.map, sort_key(ex, e.key))
     if not found:
         if '::or_insert_with' in n:
@@ -1902,9 +2019,39 @@ def m_vecdeque_new(ex, n, a, f):
     return VecV([])
 
 
+def _vd_cap(v):
+    """capacity of a VecDeque modelled after RawVec's amortised growth (elements of <= 1024 bytes: minimum 4)"""
+    c = getattr(v, 'cap', None)
+    return len(v.cells) if c is None else max(c, len(v.cells))
+
+
+def _vd_grow(v, additional):
+    c = _vd_cap(v)
+    need = len(v.cells) + additional
+    if need > c:
+        c = max(c * 2, need, 4)
+    v.cap = c
+
+
+@model(r'^std::collections::VecDeque::<.*>::capacity$')
+def m_vecdeque_capacity(ex, n, a, f):
+    return _vd_cap(ex.deref(a[0]))
+
+
+@model(r'^<std::collections::VecDeque<.*> as std::iter::Extend<.*>>::extend::<std::collections::VecDeque<')
+def m_vecdeque_extend(ex, n, a, f):
+    v = ex.deref(a[0])
+    o = ex.force(a[1])
+    _vd_grow(v, len(o.cells))
+    v.cells.extend(Cell(c.v) for c in o.cells)
+    return UNIT
+
+
 @model(r'^std::collections::VecDeque::<.*>::push_back$')
 def m_vecdeque_push_back(ex, n, a, f):
-    ex.deref(a[0]).cells.append(Cell(a[1]))
+    v = ex.deref(a[0])
+    _vd_grow(v, 1)
+    v.cells.append(Cell(a[1]))
     return UNIT
 
 
